@@ -2470,7 +2470,7 @@ class Parameters:
         type.__setattr__(cls, param_name, param_obj)
         ParameterizedMetaclass._initialize_parameter(cls, param_name, param_obj)
         # delete cached params()
-        cls._param__private.params.clear()
+        cls._clear_params_cache()
 
     # PARAM3_DEPRECATION
     @_deprecated(extra_msg="Use instead `.param.add_parameter`", warning_cat=_ParamFutureWarning)
@@ -4385,6 +4385,15 @@ class ParameterizedMetaclass(type):
         param._set_names(param_name)
         mcs.__param_inheritance(param_name, param)
 
+    def _clear_params_cache(mcs):
+        """
+        Delete the cached params() of this class and of all its subclasses.
+
+        The cache of a subclass holds the Parameters it inherits.
+        """
+        for cls in descendents(mcs):
+            cls._param__private.params.clear()
+
     # Should use the official Python 2.6+ abstract base classes; see
     # https://github.com/holoviz/param/issues/84
     def __is_abstract(mcs):
@@ -4474,6 +4483,7 @@ class ParameterizedMetaclass(type):
                 parameter = copy.copy(parameter)
                 parameter.owner = mcs
                 type.__setattr__(mcs,attribute_name,parameter)
+                mcs._clear_params_cache()
             mcs.__dict__[attribute_name].__set__(None,value)
 
         else:
@@ -4481,6 +4491,7 @@ class ParameterizedMetaclass(type):
 
             if isinstance(value,Parameter):
                 mcs.__param_inheritance(attribute_name,value)
+                mcs._clear_params_cache()
 
     def __param_inheritance(mcs, param_name, param):
         """
